@@ -290,10 +290,15 @@ func runH3(t *testing.T, prog *hx.Program, dec *simrt.Decider, verbose bool, nse
 		Verbose:    verbose,
 		TraceSteps: verbose && os.Getenv("VERIF_TRACE_STEPS") != "",
 		Profile:    os.Getenv("VERIF_PROFILE") != "",
+		// time passing while tasks are runnable (off until a harness switches it on for its fault phase)
+		TimeSkipPerMille: int(prog.Param("timeskip", 0)),
+		TimeSkipMax:      time.Duration(prog.Param("skipmax_ms", 2000)) * time.Millisecond,
+		TimeSkipBudget:   time.Duration(prog.Param("skipbudget_s", 60)) * time.Second,
 	}
 	var s *simrt.Sim
 	problem := simrt.RunBubble(t, func() {
 		s = simrt.New(dec, cfg)
+		s.SetTimeSkips(false)
 		h.s = s
 		nuid.Reset()
 		h.bus = nats.NewBus(s)
